@@ -1,6 +1,6 @@
 -- line-protocol handler of property C20 (polynomial arithmetic and batch utilities):
 -- runs the definitions of Winter/Model/Poly.lean with the raw-word field operations of
--- Winter/Model/Field.lean (and the generated quadratic-extension formulas of f64)
+-- Winter/Model/Field.lean and the generated `ExtensibleField<2>` / `<3>` formulas of the base fields
 import Winter.Drv.Util
 import Winter.Model.Field
 import Winter.Model.Poly
@@ -22,45 +22,96 @@ def opsOf (F : FieldImpl) : Ops Nat where
   isOne := fun x => F.eq x (F.new 1)
   pow := F.exp
 
-/-- base-field operations the generated extension formulas of f64 are written against -/
-def fops64 : Gen.FOps Nat where
-  add := F64.impl.add
-  sub := F64.impl.sub
-  mul := F64.impl.mul
-  neg := F64.impl.neg
-  double := F64.impl.double
-  square := fun x => F64.impl.mul x x
-  ofNat := F64.impl.new
+/-- base-field operations the generated extension formulas are written against -/
+def fopsOf (F : FieldImpl) : Gen.FOps Nat where
+  add := F.add
+  sub := F.sub
+  mul := F.mul
+  neg := F.neg
+  double := F.double
+  square := fun x => F.mul x x
+  ofNat := F.new
 
-def q64Zero : Nat × Nat := (F64.impl.new 0, F64.impl.new 0)
-def q64IsZero (x : Nat × Nat) : Bool := F64.impl.eq x.1 (F64.impl.new 0) && F64.impl.eq x.2 (F64.impl.new 0)
+/-- `impl ExtensibleField<2>` of a base field (generated formula bodies) -/
+structure X2 where
+  mul : Nat → Nat → Nat → Nat → Nat × Nat
+  mulBase : Nat → Nat → Nat → Nat × Nat
+  frobenius : Nat → Nat → Nat × Nat
 
-/-- `QuadExtension::<f64::BaseElement>::inv` -/
-def q64Inv (x : Nat × Nat) : Option (Nat × Nat) :=
-  if q64IsZero x then some x
+/-- `impl ExtensibleField<3>` of a base field (generated formula bodies) -/
+structure X3 where
+  mul : Nat → Nat → Nat → Nat → Nat → Nat → Nat × Nat × Nat
+  mulBase : Nat → Nat → Nat → Nat → Nat × Nat × Nat
+  frobenius : Nat → Nat → Nat → Nat × Nat × Nat
+
+def x2f64 : X2 := ⟨Gen.F64.ext2_mul (fopsOf F64.impl), Gen.F64.ext2_mul_base (fopsOf F64.impl),
+  Gen.F64.ext2_frobenius (fopsOf F64.impl)⟩
+def x2f62 : X2 := ⟨Gen.F62.ext2_mul (fopsOf F62.impl), Gen.F62.ext2_mul_base (fopsOf F62.impl),
+  Gen.F62.ext2_frobenius (fopsOf F62.impl)⟩
+def x2f128 : X2 := ⟨Gen.F128.ext2_mul (fopsOf F128.impl), Gen.F128.ext2_mul_base (fopsOf F128.impl),
+  Gen.F128.ext2_frobenius (fopsOf F128.impl)⟩
+def x3f64 : X3 := ⟨Gen.F64.ext3_mul (fopsOf F64.impl), Gen.F64.ext3_mul_base (fopsOf F64.impl),
+  Gen.F64.ext3_frobenius (fopsOf F64.impl)⟩
+def x3f62 : X3 := ⟨Gen.F62.ext3_mul (fopsOf F62.impl), Gen.F62.ext3_mul_base (fopsOf F62.impl),
+  Gen.F62.ext3_frobenius (fopsOf F62.impl)⟩
+
+def isZ (F : FieldImpl) (x : Nat) : Bool := F.eq x (F.new 0)
+
+/-- `QuadExtension::<B>::inv` -/
+def quadInv (F : FieldImpl) (X : X2) (x : Nat × Nat) : Option (Nat × Nat) :=
+  if isZ F x.1 && isZ F x.2 then some x
   else
-    let num := Gen.F64.ext2_frobenius fops64 x.1 x.2
-    let norm := Gen.F64.ext2_mul fops64 x.1 x.2 num.1 num.2
-    if !(F64.impl.eq norm.2 (F64.impl.new 0)) then none   -- debug_assert_eq!(norm[1], ZERO): never fires
+    let num := X.frobenius x.1 x.2
+    let norm := X.mul x.1 x.2 num.1 num.2
+    if !(isZ F norm.2) then none   -- debug_assert_eq!(norm[1], ZERO): would show as a disagreement
     else
-      match F64.impl.inv norm.1 with
-      | .done di => some (F64.impl.mul num.1 di, F64.impl.mul num.2 di)
+      match F.inv norm.1 with
+      | .done di => some (F.mul num.1 di, F.mul num.2 di)
       | .out => none
 
-def q64MulOps (pow : Nat × Nat → Nat → Nat × Nat) : Ops (Nat × Nat) where
-  zero := q64Zero
-  one := (F64.impl.new 1, F64.impl.new 0)
-  add := fun a b => (F64.impl.add a.1 b.1, F64.impl.add a.2 b.2)
-  sub := fun a b => (F64.impl.sub a.1 b.1, F64.impl.sub a.2 b.2)
-  mul := fun a b => Gen.F64.ext2_mul fops64 a.1 a.2 b.1 b.2
-  inv := q64Inv
-  isZero := q64IsZero
-  isOne := fun x => F64.impl.eq x.1 (F64.impl.new 1) && F64.impl.eq x.2 (F64.impl.new 0)
+def quadMulOps (F : FieldImpl) (X : X2) (pow : Nat × Nat → Nat → Nat × Nat) : Ops (Nat × Nat) where
+  zero := (F.new 0, F.new 0)
+  one := (F.new 1, F.new 0)
+  add := fun a b => (F.add a.1 b.1, F.add a.2 b.2)
+  sub := fun a b => (F.sub a.1 b.1, F.sub a.2 b.2)
+  mul := fun a b => X.mul a.1 a.2 b.1 b.2
+  inv := quadInv F X
+  isZero := fun x => isZ F x.1 && isZ F x.2
+  isOne := fun x => F.eq x.1 (F.new 1) && isZ F x.2
   pow := pow
 
-/-- the quadratic extension of f64; `exp` is the trait's default `exp_vartime` -/
-def q64Ops : Ops (Nat × Nat) :=
-  q64MulOps fun x p => expVartime (q64MulOps fun _ _ => q64Zero) x p
+/-- a quadratic extension; `exp` is the trait's default `exp_vartime` -/
+def quadOps (F : FieldImpl) (X : X2) : Ops (Nat × Nat) :=
+  quadMulOps F X fun x p => expVartime (quadMulOps F X fun _ _ => (F.new 0, F.new 0)) x p
+
+/-- `CubeExtension::<B>::inv` -/
+def cubeInv (F : FieldImpl) (X : X3) (x : Nat × Nat × Nat) : Option (Nat × Nat × Nat) :=
+  if isZ F x.1 && isZ F x.2.1 && isZ F x.2.2 then some x
+  else
+    let c1 := X.frobenius x.1 x.2.1 x.2.2
+    let c2 := X.frobenius c1.1 c1.2.1 c1.2.2
+    let num := X.mul c1.1 c1.2.1 c1.2.2 c2.1 c2.2.1 c2.2.2
+    let norm := X.mul x.1 x.2.1 x.2.2 num.1 num.2.1 num.2.2
+    if !(isZ F norm.2.1) || !(isZ F norm.2.2) then none   -- the two debug assertions
+    else
+      match F.inv norm.1 with
+      | .done di => some (F.mul num.1 di, F.mul num.2.1 di, F.mul num.2.2 di)
+      | .out => none
+
+def cubeMulOps (F : FieldImpl) (X : X3) (pow : Nat × Nat × Nat → Nat → Nat × Nat × Nat) :
+    Ops (Nat × Nat × Nat) where
+  zero := (F.new 0, F.new 0, F.new 0)
+  one := (F.new 1, F.new 0, F.new 0)
+  add := fun a b => (F.add a.1 b.1, F.add a.2.1 b.2.1, F.add a.2.2 b.2.2)
+  sub := fun a b => (F.sub a.1 b.1, F.sub a.2.1 b.2.1, F.sub a.2.2 b.2.2)
+  mul := fun a b => X.mul a.1 a.2.1 a.2.2 b.1 b.2.1 b.2.2
+  inv := cubeInv F X
+  isZero := fun x => isZ F x.1 && isZ F x.2.1 && isZ F x.2.2
+  isOne := fun x => F.eq x.1 (F.new 1) && isZ F x.2.1 && isZ F x.2.2
+  pow := pow
+
+def cubeOps (F : FieldImpl) (X : X3) : Ops (Nat × Nat × Nat) :=
+  cubeMulOps F X fun x p => expVartime (cubeMulOps F X fun _ _ => (F.new 0, F.new 0, F.new 0)) x p
 
 /-- everything the handler needs to know about one field: `α` its elements, `β` the elements of the
     field whose elements are the `b` of `mul_acc` / the coefficients of `evalb` -/
@@ -86,17 +137,29 @@ def baseDr (F : FieldImpl) : Dr Nat Nat where
   mulBase := F.mul
   render := fun x => toString (F.asInt x)
 
-def q64Dr : Dr (Nat × Nat) Nat where
-  ops := q64Ops
+def quadDr (F : FieldImpl) (X : X2) : Dr (Nat × Nat) Nat where
+  ops := quadOps F X
   parse := fun s => match s.splitOn ":" with
-    | [a, b] => match parseWord F64.impl a, parseWord F64.impl b with
+    | [a, b] => match parseWord F a, parseWord F b with
       | some x, some y => some (x, y)
       | _, _ => none
     | _ => none
-  parseSub := parseWord F64.impl
-  cast := fun b => (b, F64.impl.new 0)
-  mulBase := fun c b => Gen.F64.ext2_mul_base fops64 c.1 c.2 b
-  render := fun x => s!"{F64.impl.asInt x.1}:{F64.impl.asInt x.2}"
+  parseSub := parseWord F
+  cast := fun b => (b, F.new 0)
+  mulBase := fun c b => X.mulBase c.1 c.2 b
+  render := fun x => s!"{F.asInt x.1}:{F.asInt x.2}"
+
+def cubeDr (F : FieldImpl) (X : X3) : Dr (Nat × Nat × Nat) Nat where
+  ops := cubeOps F X
+  parse := fun s => match s.splitOn ":" with
+    | [a, b, c] => match parseWord F a, parseWord F b, parseWord F c with
+      | some x, some y, some z => some (x, y, z)
+      | _, _, _ => none
+    | _ => none
+  parseSub := parseWord F
+  cast := fun b => (b, F.new 0, F.new 0)
+  mulBase := fun c b => X.mulBase c.1 c.2.1 c.2.2 b
+  render := fun x => s!"{F.asInt x.1}:{F.asInt x.2.1}:{F.asInt x.2.2}"
 
 variable {α β : Type}
 
@@ -218,7 +281,11 @@ def handle : List String → String
   | "f64" :: rest => handleF (baseDr F64.impl) rest
   | "f62" :: rest => handleF (baseDr F62.impl) rest
   | "f128" :: rest => handleF (baseDr F128.impl) rest
-  | "q64" :: rest => handleF q64Dr rest
+  | "q64" :: rest => handleF (quadDr F64.impl x2f64) rest
+  | "q62" :: rest => handleF (quadDr F62.impl x2f62) rest
+  | "q128" :: rest => handleF (quadDr F128.impl x2f128) rest
+  | "c64" :: rest => handleF (cubeDr F64.impl x3f64) rest
+  | "c62" :: rest => handleF (cubeDr F62.impl x3f62) rest
   | _ => "bad-op"
 
 end Drv.C20
